@@ -164,6 +164,12 @@ def run(ctx):
     SFG = "Log %s %s 7 4 %s" % (T("ab.c"), T("fg"), T("x"))
     for typ, txt in ((FUNC, "fg,g"), (FUNC, "g,fg"), (FILE, "ab.c,b.c"), (FILE, "b.c,ab.c"), (FUNC, "xfg,fgx,fg"), (FILE, "b.cc,ab.c")):
         directed.append(["Open", "Enable 1", SG, "Add 1 %d %s 0 7" % (typ, T(txt)), SG, SFG, S1, "Remove 1 %d %s 0 7" % (typ, T(txt)), SG, SFG, S1])
+    # a format-substring filter (and tag rule) whose text contains a comma is one substring, not a list
+    SC = "Log %s %s 8 4 %s" % (T("b.c"), T("g"), T("x,z"))
+    SZ = "Log %s %s 9 4 %s" % (T("b.c"), T("g"), T("z"))
+    directed.append(["Open", "Enable 1", SC, SZ, S1, "Add 1 %d %s 0 7" % (FORMAT, T("x,z")), SC, SZ, S1, "Open", "Enable 2",
+                     "Add 2 %d %s 0 7" % (FORMAT, T("z")), "TagSet 3 %d %s 0 7" % (FORMAT, T("x,z")), SC, SZ, S1,
+                     "Remove 1 %d %s 0 7" % (FORMAT, T("x,z")), SC, SZ, S1, "TagClear %d %s 0 7" % (FORMAT, T("x,z")), SC, SZ, S1])
     hs += [[ln.split() for ln in sc] for sc in directed]
     ctx.exec_validate(exe, hs, to_lines, "LogRouteTrace.tla", trace_cfg(ctx), label="c12", nshards=4 * min(jobs, 4))
     # (4) threaded targets: with the logging thread started and TWO threaded targets selected by the same call sites, each
